@@ -240,6 +240,15 @@ package traversal
 //@   before fn assert[C16] carg1 == n && carg0 == prog
 //@   before walk_transform_iterateList assert[C16] carg1 == n && carg2 == s && carg3 == fn
 //@   before walk_transform_iterateMap assert[C16] carg1 == n && carg2 == s && carg3 == fn
+//   a map or list that the callback did not replace is always rebuilt child by child
+//@   after walk_transform_iterateList let iterated = true
+//@   after walk_transform_iterateMap let iterated = true
+//@   ensures[C16] err == nil && !defined(iterated) && !defined(new_n) ==> datamodel.vkind(r.val) != datamodel.Kind_List && datamodel.vkind(r.val) != datamodel.Kind_Map
+//@   after fn let seen = carg1
+//@   ensures[C16] err == nil && !defined(iterated) && defined(new_n) ==> new_n != seen || (datamodel.vkind(r.val) != datamodel.Kind_List && datamodel.vkind(r.val) != datamodel.Kind_Map)
+//@   after Interests let ints = result0
+//@   before walk_transform_iterateList assert[C16] carg4 == ints
+//@   before walk_transform_iterateMap assert[C16] carg4 == ints
 
 //@ func (Progress).walk_transform_iterateList(n, s, fn, attn) (r, err)
 //@   requires wfprog(prog) && n != nil && s != nil && fn != nil && datamodel.vkind(n.val) == datamodel.Kind_List
